@@ -538,12 +538,18 @@ def main():
     if seed == 0:
         seed = 1
     t0 = time.time()
-    try:
-        import vspecial
-        if prop in vspecial.SPECIAL:
-            sys.exit(vspecial.SPECIAL[prop](prop, tier, seed))
-    except ImportError:
-        pass
+    import vspecial
+    if prop in vspecial.SPECIAL:
+        try:
+            rc = vspecial.SPECIAL[prop](prop, tier, seed)
+        except SystemExit:
+            raise
+        except Exception as e:  # infrastructure failure: never disguised as a verdict
+            import traceback
+            traceback.print_exc()
+            log("infrastructure failure:", str(e)[-500:])
+            rc = 2
+        sys.exit(rc)
     if prop not in PLANS:
         log("no plan for", prop)
         sys.exit(2)
@@ -560,6 +566,11 @@ def main():
         rc = finish(prop, tier, seed, PLANS[prop]["level"], merged, reg, rule, t0, strict=strict, extra_cov=extra)
     except RuntimeError as e:
         log("infrastructure failure:", str(e)[-3000:])
+        sys.exit(2)
+    except Exception as e:
+        import traceback
+        traceback.print_exc()
+        log("infrastructure failure:", str(e)[-500:])
         sys.exit(2)
     vbuild.gc_objects()
     log("%s %s: %d cases, wall %.1fs, rc=%d" % (prop, tier, merged["evaluations"], time.time() - t0, rc))
